@@ -1,7 +1,7 @@
 (* C03 -- statements only; see DESIGN.md section 6 C03.  Theorems are added as the proofs land;
    the witnesses below are evaluated in the kernel on the whole-parser model. *)
 From Coq Require Import String.
-From MdIt Require Import Prims Tables Escape Tree Render Core Dump Dispatch TreeProofs RenderProofs.
+From MdIt Require Import Prims Tables Escape Ruler Tree Render Block Inline Core Dump Dispatch TreeProofs RenderProofs SafeProofs.
 Local Open Scope string_scope.
 Local Open Scope list_scope.
 Local Open Scope N_scope.
@@ -36,5 +36,33 @@ Theorem C03_attrs_are_escaped : forall attrs,
   attrs_chunk attrs = flat_map (fun a : str * str => [32] ++ escape_html (fst a) ++ [61; 34] ++ escape_html (snd a) ++ [34]) attrs.
 Proof. reflexivity. Qed.
 
+(* without the raw-HTML rules no raw-HTML node is ever built: every parser whose compiled block and inline chains
+   contain neither the HTML block rule nor the inline HTML rule (and whose emphasis pairs construct ordinary nodes),
+   every input, every core chain *)
+Theorem C03_no_raw_nodes : forall fuel m src d bc ic,
+  snd (r_iter (md_block m)) = inr bc -> snd (r_iter (md_inline m)) = inr ic ->
+  no_html_block bc = true -> no_html_inline ic = true -> md_pairs_ok m = true ->
+  snd (parse fuel m src) = inr d -> raw_free (d_root d) = true.
+Proof. exact parse_raw_free. Qed.
+
+(* ... and then the HTML / XHTML is the serialisation of events none of which is raw: tag markup written by the
+   serializer, escape_html of text, escape_html of attribute names and values between double quotes *)
+Theorem C03_output_fully_escaped : forall fuel m src d bc ic xhtml html,
+  snd (r_iter (md_block m)) = inr bc -> snd (r_iter (md_inline m)) = inr ic ->
+  no_html_block bc = true -> no_html_inline ic = true -> md_pairs_ok m = true ->
+  snd (parse fuel m src) = inr d -> render xhtml (d_root d) = inr html ->
+  exists es, Forall not_raw_event es /\ html = serialize xhtml es.
+Proof. exact parse_render_no_raw. Qed.
+
+(* the hypotheses hold for CommonMark + strikethrough (+ sourcepos, custom rules) in any order *)
+Example C03_hypotheses_hold :
+  let m := build_md (bs "sC8S13") 100 in
+  match snd (r_iter (md_block m)), snd (r_iter (md_inline m)) with
+  | inr bc, inr ic => no_html_block bc && no_html_inline ic && md_pairs_ok m = true
+  | _, _ => False end.
+Proof. vm_compute. reflexivity. Qed.
+
 Print Assumptions C03_escape_no_special.
 Print Assumptions C03_escape_lossless.
+Print Assumptions C03_no_raw_nodes.
+Print Assumptions C03_output_fully_escaped.
